@@ -25,7 +25,7 @@ def gen_cases(tier, seed):
     for i in range(n):
         cases.append({"part": "small", "shard": i, "nshards": n, "tier": tier, "seed": seed})
     for i in range(n):
-        cases.append({"part": "large", "shard": i, "seed": seed, "n": 24 if q else 400, "tier": tier})
+        cases.append({"part": "large", "shard": i, "seed": seed, "n": 24 if q else 60, "tier": tier})
     for i in range(n if q else 2 * n):
         cases.append({"part": "pipeline", "seed": seed * 613 + i, "n": 6 if q else 20})
     return cases
@@ -230,7 +230,7 @@ def run_small(case):
     # n = 3: exhaustive in thorough over a reduced lattice, stratified in quick
     opts3 = [(s, e, z, a) for (s, e) in intervals for z in (16, 48, 100) for a in (16, 64)]
     idx = 0
-    step = 40 if tier == "quick" else 2
+    step = 40 if tier == "quick" else 4
     for combo in itertools.product(opts3, repeat=3):
         idx += 1
         if idx % ns != sh or (idx // ns) % step:
@@ -241,7 +241,7 @@ def run_small(case):
             sample = {"ranges(start,end,size,align)": list(combo)}
     # n = 4, 5 random over the full lattice with 5 time steps and alignments 16..128
     intervals5 = [(s, e) for s in range(5) for e in range(s, 5)]
-    nrand = 1500 if tier == "quick" else 30000
+    nrand = 1500 if tier == "quick" else 8000
     for _ in range(nrand):
         n = int(rng.integers(4, 6))
         rs = []
@@ -262,7 +262,7 @@ def run_large(case):
     c0 = MON.calls
     sample = None
     for k in range(case["n"]):
-        n = int(rng.integers(20, 100 if case["tier"] == "quick" else 600))
+        n = int(rng.integers(20, 100 if case["tier"] == "quick" else 300))
         T = int(rng.integers(5, max(6, n)))
         style = int(rng.integers(0, 4))
         rs = []
@@ -379,11 +379,11 @@ def summarise(agg, tier):
     q = tier == "quick"
     c = agg.counters
     return {
-        "thresholds": {"allocator_calls": 60000 if q else 1500000, "sets_with_3_live": 5000 if q else 100000, "large_sets": 300 if q else 15000,
+        "thresholds": {"allocator_calls": 60000 if q else 700000, "sets_with_3_live": 5000 if q else 100000, "large_sets": 300 if q else 2500,
                        "pipeline_allocator_calls": 100 if q else 2000, "hc_iterations_observed": 1000 if q else 100000},
         "distinct_nontrivial": c.get("sets_with_3_live", 0),
         "rule": "live-range sets: all ordered pairs over (10 intervals x 5 sizes x 2 alignments), ordered triples over a reduced lattice (stratified in quick, "
-                "exhaustive/2 in thorough), random 4-5 range sets over 5 time steps / alignments 16..128, random 20-600 range sets in four lifetime styles x memory "
+                "exhaustive/4 in thorough), random 4-5 range sets over 5 time steps / alignments 16..128, random 20-300 (quick: 20-100) range sets in four lifetime styles x memory "
                 "limits below/at/above the peak x iteration limits {0,1,50,2000}; each set goes through Greedy, LinearAlloc and HillClimb. non-trivial = at least 3 "
                 "ranges live at one time step (counted)",
         "assumptions": ["LinearAlloc is judged with the single granularity it is called with; Greedy/HillClimb with per-range alignments",
